@@ -32,6 +32,7 @@ import (
 	"strconv"
 	"strings"
 	"sync"
+	"syscall"
 	"time"
 
 	"github.com/osteele/liquid"
@@ -47,6 +48,7 @@ func init() {
 			return "bad-case"
 		}
 		rb := newRobust(r)
+		defer rb.done()
 		return rb.exec(parseEngineCfg(f[1]), unhexField(f[2]), DecEnv(f[3]), strings.Join(f, " "), "replay")
 	}
 }
@@ -121,6 +123,7 @@ func robustUniverse(tier string) []*V {
 		s(""), s("abc"), s("héllo wörld 😀 x"), s("10"),
 		VAnys(), VAnys(VNil(), i(1)), VAnys(s("b"), s("a"), i(3)),
 		VStrMap(SKV("a", i(1)), SKV("b", i(2))), VMap(TInt(0), TAny, KV(i(1), s("x"))), VRange(3, 1),
+		VAnys(VStrMap(SKV("name", s("b")), SKV("abc", i(1))), VStrMap(SKV("name", s("a")))), // objects, one lacking a key
 	}
 	if tier != "thorough" {
 		return u
@@ -130,7 +133,7 @@ func robustUniverse(tier string) []*V {
 		VFlt(1, 0.5), VFlt(1, -2.5), VFlt(1, 1e15), VFlt(0, 1.5),
 		s("a"), s(" padded "), s("a,b,c"), s("<b>&amp;</b>"), s("%zz"), s("1.5"), s(long), s("\xff\xfe"),
 		VAnys(i(1), i(2), i(2)), VAnys(VAnys(i(1)), VAnys(i(2))), VSlice(TStr, s("b"), s("a")),
-		VAnys(VStrMap(SKV("name", s("b"))), VStrMap(SKV("name", s("a")))), VAnys(VMap(TInt(0), TAny, KV(i(1), s("x")))),
+		VAnys(VMap(TInt(0), TAny, KV(i(1), s("x")))),
 		VMapSlice(SKV("a", i(1)), SKV("b", i(2))), VDrop(i(3)), VDrop(VAnys(i(2), i(1))), VPtr(i(1)), VNilPtr(),
 		VStruct(Field{"a", i(1)}, Field{"b", s("x")}), VBytes("ab"), VTime(1577934245), VRange(1, 3),
 		VKeyed(Field{"k1", i(1)}, Field{"k2", i(2)}),
@@ -180,11 +183,12 @@ type robust struct {
 	r       *Run
 	seenSig map[string]int
 	w       *worker
-	local   bool // run in-process (replay)
+	local   bool   // run in-process (debugging only: a case that hangs cannot be stopped)
+	class   string // class of the case being executed (for the histograms)
 }
 
 func newRobust(r *Run) *robust {
-	return &robust{r: r, seenSig: map[string]int{}, local: r.Replay != "" || os.Getenv("VERIF_ROBUST_LOCAL") != ""}
+	return &robust{r: r, seenSig: map[string]int{}, local: os.Getenv("VERIF_ROBUST_LOCAL") != ""}
 }
 
 func (rb *robust) done() {
@@ -195,7 +199,7 @@ func (rb *robust) done() {
 
 // violate reports at most 3 cases per signature and counts all of them.
 func (rb *robust) violate(clause, sig, caseLine, detail string) {
-	rb.r.Count("violation:" + clause + ":" + sig)
+	rb.r.Count("violation:" + clause + ":" + rb.class + ":" + sig)
 	rb.seenSig[clause+sig]++
 	if rb.seenSig[clause+sig] <= 3 {
 		rb.r.Violate("C01", clause, caseLine, detail)
@@ -218,6 +222,7 @@ func (rb *robust) runOnce(cfg engineCfg, src string, env map[string]*V, caseLine
 	}
 	if rb.w == nil {
 		rb.w = startWorker()
+		rb.w.call(calibrationLine, 20*time.Second) // warm-up: one-time initialisation is not timed
 	}
 	o, status, info := rb.w.call(caseLine, hard)
 	if status != "" {
@@ -227,38 +232,104 @@ func (rb *robust) runOnce(cfg engineCfg, src string, env map[string]*V, caseLine
 	return o, status, info
 }
 
+// The time clause is judged relative to the machine's speed at that moment: when a case
+// overshoots, a fixed calibration render is timed next to it (same worker, same metric) and the
+// limit is scaled by how much slower than nominal the calibration ran. On an idle machine the
+// factor is 1; on a machine loaded by other checks a trivial case can take hundreds of
+// milliseconds, and so does the calibration.
+const (
+	calibrationSrc     = "{% for i in (1..300) %}{{ i | plus: 1 }}{% endfor %}"
+	calibrationNominal = 600 * time.Microsecond // CPU time of calibrationSrc on an idle machine
+)
+
+var calibrationLine = robustLine(engineCfg{}, calibrationSrc, map[string]*V{})
+
+// slowdown times the calibration render (max of 2) and returns the factor by which the machine
+// is currently slower than nominal (>= 1); a huge factor when the calibration itself fails.
+func (rb *robust) slowdown() float64 {
+	worst := time.Duration(0)
+	for i := 0; i < 2; i++ {
+		o, status, _ := rb.runOnce(engineCfg{}, calibrationSrc, map[string]*V{}, calibrationLine, 20*time.Second)
+		if status != "" {
+			return 1e9
+		}
+		if o.Elapsed > worst {
+			worst = o.Elapsed
+		}
+	}
+	f := float64(worst) / float64(calibrationNominal)
+	if f < 1 {
+		f = 1
+	}
+	return f
+}
+
 // exec runs one case on the real code, evaluates the C01 oracle, and returns the result line.
 func (rb *robust) exec(cfg engineCfg, src string, env map[string]*V, caseLine, class string) string {
 	r := rb.r
+	rb.class = class
 	budget := caseBudget(spelledCost(src, len(caseLine)-len(src)*2, maxCollection(env)))
 	limit := 50 * budget
-	hard := limit
-	if hard > caseHardLimit {
-		hard = caseHardLimit
+	if limit > caseHardLimit {
+		limit = caseHardLimit // nothing the generators build legitimately runs this long
 	}
-	if hard < 300*time.Millisecond {
-		hard = 300 * time.Millisecond // the kill limit is never below 0.3 s: scheduling noise must not kill workers
+	// The worker reports the CPU time of the case; the overshoot test uses that. The wall-clock
+	// kill limit only ends cases that do not return: generous, so that a loaded machine does not kill.
+	hard := 4*limit + 3*time.Second
+	if hard > caseHardLimit+3*time.Second {
+		hard = caseHardLimit + 3*time.Second
 	}
 	o, status, info := rb.runOnce(cfg, src, env, caseLine, hard)
 	if status != "" || o.Elapsed > limit {
-		// measure again (fresh worker) before reporting: a scheduling hiccup does not repeat
-		o2, status2, info2 := rb.runOnce(cfg, src, env, caseLine, hard)
-		switch {
-		case status == "died" && status2 == "died":
-			rb.violate("process-death", firstLine(info2), caseLine, "the process running the case died twice: "+info2+"   source: "+short(fmt.Sprintf("%q", src), 300))
-			o2.Res = "died"
-		case (status2 == "timeout" || o2.Elapsed > limit) && (status == "timeout" || o.Elapsed > limit) && limit <= caseHardLimit:
-			rb.violate("time", class, caseLine, fmt.Sprintf("took %v and %v (killed at %v); nominal budget %v for %d source bytes (50x = %v)   source: %s",
-				o.Elapsed, o2.Elapsed, hard, budget, len(src), limit, short(fmt.Sprintf("%q", src), 300)))
-			if status2 == "timeout" {
-				o2.Res = "timeout"
+		// Measure twice more (fresh worker after a kill), with the calibration render in between,
+		// before reporting: a scheduling hiccup does not repeat, a loaded machine shows in the calibration.
+		took := func(o caseOutcome, status string) time.Duration {
+			if status == "timeout" {
+				return hard // a lower bound
 			}
-		case status2 != "":
-			r.Count("unjudged:" + status2)
-			o2.Res = status2
+			return o.Elapsed
 		}
-		o = o2
-		_ = info
+		least, deaths, lastInfo := took(o, status), 0, info
+		if status == "died" {
+			deaths++
+		}
+		slow := rb.slowdown()
+		retries := 2
+		if status != "" {
+			retries = 1 // a case that had to be killed (or killed its process) is retried once: each try costs seconds
+		}
+		for i := 0; i < retries; i++ {
+			o2, status2, info2 := rb.runOnce(cfg, src, env, caseLine, hard)
+			if status2 == "died" {
+				deaths++
+				lastInfo = info2
+			} else if t := took(o2, status2); t < least {
+				least = t
+			}
+			if status2 == "" {
+				o = o2
+			} else {
+				o.Res = status2
+			}
+			if s := rb.slowdown(); s > slow {
+				slow = s
+			}
+			if status2 == "" && o2.Elapsed <= limit {
+				break
+			}
+		}
+		switch {
+		case deaths >= 2 && deaths == retries+1:
+			rb.violate("process-death", firstLine(lastInfo), caseLine, "the process running the case died every time: "+lastInfo+"   source: "+short(fmt.Sprintf("%q", src), 300))
+			o.Res = "died"
+		case deaths > 0:
+			r.Count("unjudged:died-not-repeatable")
+		case float64(least) > float64(limit)*slow:
+			rb.violate("time", class, caseLine, fmt.Sprintf("took at least %v of CPU time in each of %d runs (a case that does not return is killed after %v); nominal budget %v for %d source bytes, 50x = %v, machine slowdown factor %.1f   source: %s",
+				least, retries+1, hard, budget, len(src), limit, slow, short(fmt.Sprintf("%q", src), 300)))
+		case least > limit:
+			r.Count("time-overshoot-explained-by-load")
+		}
 	}
 	if o.Res == "panic" {
 		rb.violate("panic", panicSignature(o.Panic), caseLine, "panic: "+o.Panic+"   source: "+short(fmt.Sprintf("%q", src), 300))
@@ -326,7 +397,7 @@ func startWorker() *worker {
 		panic(err)
 	}
 	cmd := exec.Command(exe, "-stream", "robust-worker")
-	cmd.Env = append(os.Environ(), "GOMEMLIMIT=1GiB", "GOMAXPROCS=2")
+	cmd.Env = append(os.Environ(), "GOMEMLIMIT=2GiB", "GOMAXPROCS=2")
 	in, err := cmd.StdinPipe()
 	if err != nil {
 		panic(err)
@@ -340,8 +411,11 @@ func startWorker() *worker {
 	if err := cmd.Start(); err != nil {
 		panic(err)
 	}
+	rd := bufio.NewReaderSize(out, 1<<20)
+	if line, err := rd.ReadString('\n'); err != nil || strings.TrimSpace(line) != "ready" { // start-up is not timed
+		panic("robust worker did not start: " + w.stderr.String())
+	}
 	go func() {
-		rd := bufio.NewReaderSize(out, 1<<20)
 		for {
 			line, err := rd.ReadString('\n')
 			if err != nil {
@@ -410,6 +484,16 @@ func (w *worker) call(caseLine string, limit time.Duration) (caseOutcome, string
 	}
 }
 
+// threadCPU is the CPU time (user+system) consumed so far by this process (GOMAXPROCS=2: the
+// case's goroutine and the collector); -1 if unknown.
+func threadCPU() time.Duration {
+	var ru syscall.Rusage
+	if err := syscall.Getrusage(syscall.RUSAGE_SELF, &ru); err != nil {
+		return -1
+	}
+	return time.Duration(ru.Utime.Nano() + ru.Stime.Nano())
+}
+
 // robustWorker: the child side. Reads `robust ...` case lines from stdin, answers on stdout:
 // <result>\t<elapsed ns>\t<parsed 0|1>\t<output length>\t<panic hex>\t<bad-error hex>
 func robustWorker(r *Run) {
@@ -426,8 +510,12 @@ func robustWorker(r *Run) {
 			}
 		}
 	}()
+	// The time oracle uses the CPU time consumed by this process while it runs the case, not the
+	// wall clock: a loaded machine (16 shards, each with a worker) delays a process for long stretches.
 	rd := bufio.NewReaderSize(os.Stdin, 1<<20)
 	wr := bufio.NewWriter(os.Stdout)
+	fmt.Fprintln(wr, "ready")
+	wr.Flush()
 	for {
 		line, err := rd.ReadString('\n')
 		if err != nil {
@@ -435,6 +523,7 @@ func robustWorker(r *Run) {
 		}
 		f := strings.Fields(line)
 		var o caseOutcome
+		cpu0 := threadCPU()
 		if len(f) != 4 {
 			o.Res = "bad-case"
 		} else {
@@ -449,6 +538,9 @@ func robustWorker(r *Run) {
 		po := "0"
 		if o.ParseOK {
 			po = "1"
+		}
+		if cpu := threadCPU() - cpu0; cpu0 >= 0 && cpu >= 0 {
+			o.Elapsed = cpu
 		}
 		fmt.Fprintf(wr, "%s\t%d\t%s\t%d\t%s\t%s\n", o.Res, int64(o.Elapsed), po, len(o.Out), hexField(o.Panic), hexField(o.BadErr))
 		wr.Flush()
@@ -535,7 +627,7 @@ func robustStream(r *Run) {
 						env[argNames[k]] = U[idx[k]]
 					}
 					run(plain, src, env, "matrix-filter")
-					r.Count("filter=" + name)
+					r.Count("matrix:filter=" + name)
 					// next tuple
 					k := nargs - 1
 					for ; k >= 0; k-- {
@@ -561,7 +653,7 @@ func robustStream(r *Run) {
 		for _, a := range U {
 			for _, b := range U {
 				run(plain, "{% if a "+op+" b %}T{% else %}F{% endif %}", map[string]*V{"a": a, "b": b}, "matrix-op")
-				r.Count("op=" + op)
+				r.Count("matrix:op=" + op)
 			}
 		}
 	}
@@ -596,6 +688,28 @@ func robustStream(r *Run) {
 	for _, f := range forms1[:6] {
 		for _, a := range U {
 			run(engineCfg{Strict: true}, f, map[string]*V{"a": a}, "matrix-form")
+		}
+	}
+
+	// (1b) the range boundary family (pure templates): extreme endpoints, and lengths around the
+	// array-conversion bound, converted to arrays by filters or iterated lazily by loops
+	const maxI, minI = "9223372036854775807", "-9223372036854775808"
+	bRanges := []string{"(" + maxI + ".." + maxI + ")", "(9223372036854775800.." + maxI + ")", "(1.." + maxI + ")", "(-1.." + maxI + ")",
+		"(" + minI + ".." + maxI + ")", "(" + minI + ".." + minI + ")", "(" + minI + "..-9223372036854775805)", "(" + maxI + ".." + minI + ")",
+		"(0..9999999)", "(1..10000000)", "(1..10000001)", "(0..10000000)", "(9999998..10000003)", "(5..1)", "(0..2000)", "(1..4294967296)"}
+	bTails := []string{"{{ R | first }}", "{{ R | last }}", "{{ R | size }}", "{{ R | join | size }}", "{{ R | concat: R | size }}", "{{ R }}", "{{ R | reverse | first }}",
+		"{% for i in R limit: 2 %}{{ i }},{% else %}E{% endfor %}", "{% for i in R reversed limit: 2 %}{{ i }},{% endfor %}",
+		"{% for i in R offset: 9999999 limit: 2 %}{{ i }},{% endfor %}", "{% tablerow i in R limit: 2 cols: 2 %}{{ i }}{% endtablerow %}",
+		"{% assign r = R %}{{ r.first }}{{ r[0] }}{{ r.size }}", "{% if R contains 3 %}T{% else %}F{% endif %}", "{% if R == R %}T{% else %}F{% endif %}"}
+	for _, rg := range bRanges {
+		for ti, tl := range bTails {
+			// materialising ten million items costs about a second and a gigabyte: the quick tier
+			// does it for two ranges and three filters only
+			heavy := strings.Contains(rg, "999999") || strings.Contains(rg, "1000000")
+			if heavy && !thorough && ti < 7 && !((rg == "(1..10000000)" || rg == "(1..10000001)") && (ti == 0 || ti == 2 || ti == 3)) {
+				continue
+			}
+			run(plain, strings.ReplaceAll(tl, "R", rg), map[string]*V{}, "range-boundary")
 		}
 	}
 
